@@ -135,10 +135,11 @@ type retInfo struct {
 }
 
 type loopInfo struct {
-	header  *ssa.BasicBlock
-	ordinal int
-	body    map[*ssa.BasicBlock]bool
-	backs   []*ssa.BasicBlock
+	header   *ssa.BasicBlock
+	ordinal  int
+	body     map[*ssa.BasicBlock]bool
+	backs    []*ssa.BasicBlock
+	variant0 []*Term // values of the `decreases` expressions at the loop head
 }
 
 func (x *Exec) oblName(fn, kind, detail string) string {
@@ -1044,11 +1045,40 @@ func (x *Exec) enterLoop(fr *Frame, li *loopInfo, entry *State, edgeStates []*St
 		}
 		present := x.mapPresent(st, it.mapT, it.mapR)
 		x.assume(st, Forall(bv, Implies(selectN(seenV.Term, bv), And(Neq(it.mapR, x.null()), selectN(present, bv))), []*Term{selectN(seenV.Term, bv)}))
+		// a non-empty map has a key (witness constant): lets "the loop ran at least once" be derived from len(m) > 0
+		wit := make([]*Term, len(mi.kLeaves))
+		for i, l := range mi.kLeaves {
+			wit[i] = x.ctx.Fresh(fmt.Sprintf("L%d_somekey%d", li.ordinal, i), l.Sort)
+		}
+		x.assume(st, Implies(And(Neq(it.mapR, x.null()), Gt(x.mapLen(st, it.mapT, it.mapR), IntLit(0))), selectN(present, wit)))
 	}
 	for _, inv := range invs {
 		x.assume(st, x.evalInvariant(fr, li, inv, st))
 	}
+	// loop variants: remember their value at the loop head
+	if c := x.contractFor(fr.fn); c != nil && len(c.Decreases[li.ordinal]) > 0 {
+		li.variant0 = nil
+		for _, d := range c.Decreases[li.ordinal] {
+			li.variant0 = append(li.variant0, x.evalVariant(fr, li, d, st))
+		}
+	}
 	return st
+}
+
+// evalVariant evaluates an integer loop variant in state st (variables as at the loop head).
+func (x *Exec) evalVariant(fr *Frame, li *loopInfo, c Clause, st *State) *Term {
+	vars := map[string]*Value{}
+	env := &SpecEnv{x: x, vars: vars, cur: st, old: fr.entry, pkg: x.pkgOfFn(fr.fn), fr: fr, li: li, at: li.header}
+	var out *Term
+	x.guardedEval(func() *Term {
+		v := env.eval(c.E)
+		if v.K != KScalar || v.Term.Sort.Kind != SInt {
+			specFail("decreases needs an integer expression")
+		}
+		out = v.Term
+		return True
+	}, x.contractFor(fr.fn), c)
+	return out
 }
 
 func phiName(p *ssa.Phi) string {
@@ -1117,6 +1147,14 @@ func (x *Exec) execBlock(fr *Frame, b *ssa.BasicBlock, st *State) {
 			for _, inv := range x.loopInvariants(fr, li) {
 				t := x.evalInvariant(fr, li, inv, es)
 				x.oblige(fr, es, "inv.preserved", fmt.Sprintf("loop%d", li.ordinal), labelOr(inv.Label, ""), t, s.Instrs[0].Pos(), inv.Src)
+			}
+			if c := x.contractFor(fr.fn); c != nil && len(li.variant0) == len(c.Decreases[li.ordinal]) {
+				for k, d := range c.Decreases[li.ordinal] {
+					v1 := x.evalVariant(fr, li, d, es)
+					if v1 != nil && li.variant0[k] != nil {
+						x.oblige(fr, es, "decreases", fmt.Sprintf("loop%d", li.ordinal), labelOr(d.Label, ""), And(Ge(li.variant0[k], IntLit(0)), Lt(v1, li.variant0[k])), s.Instrs[0].Pos(), d.Src)
+					}
+				}
 			}
 			fr.phiOv = saved
 		}
